@@ -395,7 +395,7 @@ def install_transport(e):
         c.assume(z3.And(en.t != EAGAIN, en.t > 0))
         return (en, "error")
     e.add(Contract("ext:sock.recv", assumed=True,
-                   requires=lambda c, a: z3.And(z(a["$args"][0], "int") >= 1, z(a["$args"][0], "int") <= MAXREQ),
+                   requires=lambda c, a: z3.And(z(a["$args"][0], "int") >= 0, z(a["$args"][0], "int") <= MAXREQ),
                    result=sr_result, havoc=lambda c, a, old, k: None,
                    raises=[(_socket.timeout, None, exc_of(_socket.timeout, ("timed out",))),
                            (OSError, None, exc_of(OSError, (EAGAIN, "Resource temporarily unavailable"))),
@@ -438,7 +438,7 @@ def install_transport(e):
 
     def rl_post(c, old, a, res):
         rx, r0, r1 = z(old.ghost["rx"]), z(old.ghost["rpos"]), z(c.ghost["rpos"])
-        return z3.And(r1 > r0, c.eq(z(res), slc(rx, r0, r1)), at(rx, r1 - 1) == 10,
+        return z3.And(r1 > r0, r1 <= slen(rx), c.eq(z(res), slc(rx, r0, r1)), at(rx, r1 - 1) == 10,
                       spec.forall_range(r0, r1 - 1, lambda k: at(rx, k) != 10, pats=lambda k: [at(rx, k)]))
 
     def rl_inv(c, fr, entry):
